@@ -160,6 +160,82 @@ class Checker:
                     raise Unsupported(f'{ob.name}: hypotheses are contradictory (vacuous lemma)')
         return out
 
+    # ------------------------------------------------------------------ cross-check against CPython
+    def crosscheck(self, per_contract):
+        """Guard against an unsound encoding / a contract that only holds in the model: random concrete inputs that
+        satisfy a contract's precondition are run through the REAL function natively and every clause the verifier
+        proved is evaluated on the real result.  A clause that fails natively voids the run (checker error)."""
+        import random
+        rnd = random.Random(1000 + self.seed)
+        reqs, meta = [], []
+        for g, c, eng, w in self.vacuity:
+            if c.witness_terms is None or c.unroll:
+                continue
+            eng.c = c
+            eng.pc, eng.in_spec, eng.ghost_env = [], 0, {}
+            eng.env = c.env(w)
+            eng.top_env = eng.env
+            eng.old_env = eng.env
+            hyps = []
+            for label, r in c.req():
+                v = eng.spec(r)
+                hyps.append(z3.BoolVal(v) if isinstance(v, bool) else v)
+            for r in c.defs:
+                hyps.append(eng.spec(r))
+            wt = c.witness_terms(w)
+            consts = set()
+
+            def collect(t):
+                if z3.is_const(t) and t.decl().kind() == z3.Z3_OP_UNINTERPRETED and t.sort() == z3.IntSort():
+                    consts.add(t)
+                for ch in t.children():
+                    collect(ch)
+            for h in hyps:
+                if not z3.is_quantifier(h):
+                    collect(h)
+            consts = sorted(consts, key=str)
+            seen = []
+            for k in range(per_contract * 3):
+                if len(seen) >= per_contract:
+                    break
+                s = z3.Solver()
+                s.set('timeout', 1000)
+                s.set('random_seed', rnd.randint(0, 10 ** 6))
+                from .engine import _has_quantifier
+                # (quantified axioms are left out: the native side re-checks the precondition on the concrete input)
+                s.add(*[h for h in hyps if not _has_quantifier(h)])
+                for cst in consts:
+                    hi = rnd.choice([3, 12, 100, 5000, 10 ** 6])
+                    s.add(cst >= -hi // 4, cst <= hi)
+                    if rnd.random() < 0.35:
+                        s.add(cst >= rnd.randint(0, hi // 2))
+                if s.check() != z3.sat:
+                    continue
+                m = s.model()
+                from .solve import _val
+                try:
+                    inputs = wt(lambda t: _val(m.eval(t, model_completion=True)))
+                except Exception:
+                    continue
+                if inputs in seen:
+                    continue
+                seen.append(inputs)
+                reqs.append(request_for(g, c, inputs))
+                meta.append((c.label, inputs))
+        out = {'inputs': len(reqs), 'held': 0, 'precondition_not_realised': 0, 'build_errors': 0, 'disagreements': []}
+        for (label, inputs), r in zip(meta, native(reqs, self.repo)):
+            st = r.get('status')
+            if st == 'holds':
+                out['held'] += 1
+            elif st == 'precondition_false':
+                out['precondition_not_realised'] += 1
+            elif st == 'violated':
+                out['disagreements'].append({'function': label, 'inputs': inputs, 'violated': r.get('violated'),
+                                             'observed': r.get('observed', '')[:300]})
+            else:
+                out['build_errors'] += 1
+        return out
+
     # ------------------------------------------------------------------ verdicts
     def run(self):
         try:
@@ -191,6 +267,19 @@ class Checker:
         violations = self.triage(failed) if failed else []
         violations += self.finish_bounded(bounded_procs)
         known = self.known_findings()
+        if not violations and not getattr(self, 'no_evidence', False):
+            try:
+                cc = self.crosscheck(4 if self.tier == 'quick' else 60)
+            except Exception as err:
+                cc = {'error': repr(err), 'disagreements': []}
+            self.extra_evidence = dict(getattr(self, 'extra_evidence', None) or {}, crosscheck=cc)
+            if cc['disagreements']:
+                d = cc['disagreements'][0]
+                self.write_evidence(real, canary_report, vac, violations, known,
+                                    error='cross-check disagreement: a proved clause fails on the real code')
+                self.say(f"UNDECIDED property={self.prop} reason=cross-check: proved clause {d['violated']} of {d['function']} "
+                         f"fails natively for {json.dumps(d['inputs'])[:300]} -> {d['observed'][:200]}")
+                return 3
         if self.tier == 'thorough' and not getattr(self, 'no_evidence', False) and not violations:
             self.mutation_run()
         self.write_evidence(real, canary_report, vac, violations, known)
